@@ -351,14 +351,53 @@ func ruleBytesAccounted(c *Ctx) {
 			}
 		})
 	}
-	// mappings are recorded only after pending layout was flushed
+	// where a mapping is recorded relative to the bytes the writer itself may put in front of a text
+	reachesEmit := map[*ssa.Function]bool{}
+	for _, f := range c.libFunctions("ast") {
+		allInstrs(f, func(_ *ssa.BasicBlock, _ int, in ssa.Instruction) {
+			if call, ok := in.(*ssa.Call); ok && isBufWrite(call) {
+				reachesEmit[f] = true
+			}
+		})
+	}
+	for changed := true; changed; {
+		changed = false
+		for _, f := range c.libFunctions("ast") {
+			if reachesEmit[f] {
+				continue
+			}
+			allInstrs(f, func(_ *ssa.BasicBlock, _ int, in ssa.Instruction) {
+				if call, ok := in.(*ssa.Call); ok && reachesEmit[call.Call.StaticCallee()] && !reachesEmit[f] {
+					reachesEmit[f] = true
+					changed = true
+				}
+			})
+		}
+	}
+	callsMapperAdd := func(f *ssa.Function) bool {
+		hit := false
+		allInstrs(f, func(_ *ssa.BasicBlock, _ int, in ssa.Instruction) {
+			if call, ok := in.(*ssa.Call); ok {
+				if cal := call.Call.StaticCallee(); cal != nil && pkgPathOf(cal) == modPath+"/sourcemap" && strings.HasPrefix(cal.Name(), "Add") {
+					hit = true
+				}
+			}
+		})
+		return hit
+	}
 	flush := c.fn("(*ast.CodeWriter).flushPending")
+	immediate := false
 	for _, name := range []string{"(*ast.CodeWriter).AddMapping", "(*ast.CodeWriter).AddNamedMapping"} {
 		f := c.fn(name)
 		if f == nil {
 			c.unres(name, token.NoPos, "not found")
 			continue
 		}
+		if !callsMapperAdd(f) {
+			c.ok(name+": keeps the request for the text written next", f.Pos(), "does not record itself; the text writers record it in front of the text (obligations below)")
+			continue
+		}
+		immediate = true
 		var rec, fl ssa.Instruction
 		allInstrs(f, func(_ *ssa.BasicBlock, _ int, in ssa.Instruction) {
 			if call, ok := in.(*ssa.Call); ok {
@@ -372,8 +411,154 @@ func ruleBytesAccounted(c *Ctx) {
 				}
 			}
 		})
-		// flushing is needed only if layout can be pending at all
 		c.check(rec != nil && fl != nil && instrDominates(fl, rec), name+": pending layout flushed before recording", f.Pos(), "flushPending dominates the mapper call", "a mapping is recorded while layout (newline/indent/space) is still pending: the recorded generated position lies BEFORE that layout, not at the token")
+	}
+	// a kept request reaches the mapper unchanged: line as line, column as column, name as name
+	if !immediate {
+		if bt, _ := bookkeepingRequestTypes(c); len(bt) > 0 {
+			for k := range bt {
+				bookkeepingTypes[k] = true
+			}
+		}
+		origin := map[*types.Var]string{} // request field -> what the setters store there
+		conflict := ""
+		note := func(fld *types.Var, what string) {
+			if old, ok := origin[fld]; ok && old != what {
+				conflict = fmt.Sprintf("field %s receives %s in one setter and %s in another", fld.Name(), old, what)
+			}
+			origin[fld] = what
+		}
+		for _, name := range []string{"(*ast.CodeWriter).AddMapping", "(*ast.CodeWriter).AddNamedMapping"} {
+			f := c.fn(name)
+			if f == nil {
+				continue
+			}
+			allInstrs(f, func(_ *ssa.BasicBlock, _ int, in ssa.Instruction) {
+				st, ok := in.(*ssa.Store)
+				if !ok {
+					return
+				}
+				fa, ok := st.Addr.(*ssa.FieldAddr)
+				if !ok || isSourcemapPkgType(fa.X.Type()) || !isSourcemapType(fa.X.Type()) {
+					return
+				}
+				v := unwrap(st.Val)
+				switch x := v.(type) {
+				case *ssa.Field: // pos.Line / pos.Column of a token.Position parameter
+					if stt, ok := x.X.Type().Underlying().(*types.Struct); ok {
+						note(fieldOfAddr(fa), stt.Field(x.Field).Name())
+					}
+				case *ssa.UnOp:
+					if fa2, ok := x.X.(*ssa.FieldAddr); ok {
+						note(fieldOfAddr(fa), fieldOfAddr(fa2).Name())
+					}
+				case *ssa.Parameter:
+					// positional meaning by the exported API's parameter order: (line, column, name)
+					for i, p := range f.Params[1:] {
+						if p == x {
+							note(fieldOfAddr(fa), []string{"Line", "Column", "name"}[min(i, 2)])
+						}
+					}
+				}
+			})
+		}
+		for _, f := range c.libFunctions("ast") {
+			if !callsMapperAdd(f) {
+				continue
+			}
+			allInstrs(f, func(_ *ssa.BasicBlock, _ int, in ssa.Instruction) {
+				call, ok := in.(*ssa.Call)
+				if !ok {
+					return
+				}
+				cal := call.Call.StaticCallee()
+				if cal == nil || pkgPathOf(cal) != modPath+"/sourcemap" || !strings.HasPrefix(cal.Name(), "Add") {
+					return
+				}
+				want := []string{"Line", "Column", "name"}
+				var got []string
+				good := conflict == ""
+				for i, a := range call.Call.Args[1:] {
+					what := "?"
+					if u, ok := unwrap(a).(*ssa.UnOp); ok {
+						if fa, ok := u.X.(*ssa.FieldAddr); ok {
+							what = origin[fieldOfAddr(fa)]
+						}
+					}
+					got = append(got, what)
+					if i < len(want) && what != want[i] {
+						good = false
+					}
+				}
+				key := fmt.Sprintf("%s: request passed to %s unchanged", fnName(f), cal.Name())
+				c.check(good, key, call.Pos(), "arguments carry "+strings.Join(got, ", "), fmt.Sprintf("the mapper receives (%s) where (Line, Column[, name]) of the requested position is required %s", strings.Join(got, ", "), conflict))
+			})
+		}
+	}
+	// the text writers: exported writer methods that hand their own parameter to a buffer-appending helper
+	for _, f := range c.libFunctions("ast") {
+		if f.Signature.Recv() == nil || !namedIs(f.Signature.Recv().Type(), "ast", "CodeWriter") || len(f.Params) != 2 || f.Object() == nil || !f.Object().Exported() {
+			continue
+		}
+		par := f.Params[1]
+		var emit *ssa.Call
+		var recCalls, others []*ssa.Call
+		allInstrs(f, func(_ *ssa.BasicBlock, _ int, in ssa.Instruction) {
+			call, ok := in.(*ssa.Call)
+			if !ok {
+				return
+			}
+			cal := call.Call.StaticCallee()
+			if cal == nil || cal.Pkg != f.Pkg {
+				return
+			}
+			switch {
+			case len(call.Call.Args) == 2 && call.Call.Args[1] == ssa.Value(par) && reachesEmit[cal]:
+				emit = call
+			case callsMapperAdd(cal):
+				recCalls = append(recCalls, call)
+			case reachesEmit[cal]:
+				others = append(others, call)
+			}
+		})
+		if emit == nil {
+			continue
+		}
+		key := fmt.Sprintf("%s: the mapping is recorded directly in front of the text", f.Name())
+		switch {
+		case immediate:
+			// the request was recorded by AddMapping: nothing but the (already flushed) pending layout may be written before the text
+			var bad []string
+			for _, o := range others {
+				if o.Call.StaticCallee() != flush && instrReachableAfter(o, emit) {
+					bad = append(bad, o.Call.StaticCallee().Name())
+				}
+			}
+			c.check(len(bad) == 0, key, emit.Pos(), "the writer puts nothing between a recorded mapping and the text", fmt.Sprintf("the mapping is recorded by AddMapping, but %s writes bytes in front of the text afterwards (%s): the segment points at the inserted byte, one column before its lexeme", f.Name(), strings.Join(bad, ", ")))
+		case len(recCalls) != 1:
+			c.bad(key, emit.Pos(), "the text writer does not record the requested mapping exactly once before emitting (found %d recording calls): segments are lost or doubled", len(recCalls))
+		default:
+			r := recCalls[0]
+			var bad []string
+			for _, o := range others {
+				if instrReachableAfter(r, o) && instrReachableAfter(o, emit) {
+					bad = append(bad, o.Call.StaticCallee().Name())
+				}
+			}
+			okOrder := instrDominates(r, emit)
+			switch {
+			case !okOrder:
+				c.bad(key, r.Pos(), "the recording call does not dominate the emit: on some path the text is written without its mapping, or the mapping is recorded after the text")
+			case len(bad) > 0:
+				c.bad(key, r.Pos(), "between recording the mapping and writing the text the writer can still insert bytes (%s): the segment points at the inserted byte", strings.Join(bad, ", "))
+			default:
+				var before []string
+				for _, o := range others {
+					before = append(before, o.Call.StaticCallee().Name())
+				}
+				c.ok(key, r.Pos(), "recorded after %s and immediately before the text", strings.Join(before, ", "))
+			}
+		}
 	}
 }
 
